@@ -257,7 +257,7 @@ func checkC17Batch(t *testing.T, sc BatchSc) Verdict {
 	sc.Mode = modeContinue(sc.Mode)
 	sc.PrepErr = 0
 	x, br, fail := runBatchCase(t, &sc, nil)
-	if fail != "" {
+	if fail != "" && !goroutinesRemain(fail) {
 		return bad("C17:bubble", "%s", fail)
 	}
 	if br.Panic != "" {
